@@ -172,7 +172,10 @@ fn c05_cluster(ctx: &VariantCtx) -> WorldOutcome {
     })
 }
 fn c05_solo(ctx: &VariantCtx) -> WorldOutcome {
-    crate::soloworld::run(if ctx.tier == Tier::Thorough { 3 } else { 3 })
+    crate::soloworld::run(if ctx.tier == Tier::Thorough { 3 } else { 3 }, false)
+}
+fn c02_solo(_ctx: &VariantCtx) -> WorldOutcome {
+    crate::soloworld::run(3, true)
 }
 fn c10_hostile(ctx: &VariantCtx) -> WorldOutcome {
     cluster_variant(ctx, |p, t| {
@@ -263,6 +266,7 @@ pub fn variants(property: &str, _tier: Tier) -> Vec<Variant> {
             Variant { name: "cluster-stabilising", weight: 3, max_events: 800_000, run: c02_live },
             Variant { name: "cluster-fault-free", weight: 1, max_events: 800_000, run: c02_fault_free },
             Variant { name: "cluster-lockstep", weight: 1, max_events: 800_000, run: c02_lockstep },
+            Variant { name: "solo-node-honest-environment", weight: 5, max_events: 400_000, run: c02_solo },
         ],
         _ => vec![],
     }
@@ -279,10 +283,10 @@ pub fn plan(property: &str, tier: Tier) -> Option<Plan> {
             "one case = one seeded execution of a 4-9 validator cluster of real nodes (stakes, Byzantine set <20% stake, crash set, disseminator, loss/dup/delay/partition/stall schedule, Byzantine voter/leader strategy all drawn from the seed); non-trivial = at least two correct nodes finalized a block and at least one fault or Byzantine action fired; distinct = distinct fingerprint of the abstracted per-node history (sequence of votes cast and blocks finalized/skipped per node)",
         ),
         "C02" => (
-            if q { 192 } else { 6_000 },
-            if q { 300 } else { 1800 },
+            if q { 760 } else { 24_000 },
+            if q { 360 } else { 1800 },
             "exploration",
-            "one case = one seeded cluster execution with a drawn stabilisation time T_s (before: arbitrary faults; after: no loss, delay <= 100 ms, <20% Byzantine, <20% further crashed); non-trivial = at least one leader window qualified for the bounded-liveness oracle and (except in the fault-free variant) a pre-T_s fault fired; distinct = distinct per-node history fingerprint",
+            "two kinds of case; (solo-node-honest-environment, 3 of 4 runs) one real node among validators that all follow the protocol (one block per slot extending the chain, delivered within 100 ms of its nominal time, every other validator votes notar and final within the delay bound, some of them slow so that blocks overtake their parents' certificates): the node must notarize and vote to finalize every block and never cast a skip or fallback vote; (cluster, 1 of 4 runs) one case = one seeded cluster execution with a drawn stabilisation time T_s (before: arbitrary faults; after: no loss, per-message delay <= 100 ms or anywhere up to 150/200/250 ms = DELTA, <20% Byzantine incl. leaders that equivocate or hand the next leader a block nobody else gets, <20% further crashed); non-trivial = at least one leader window qualified for the bounded-liveness oracle and (except in the fault-free variant) a pre-T_s fault fired; distinct = distinct per-node history fingerprint",
         ),
         "C03" => (if q { 6_000 } else { 400_000 }, if q { 90 } else { 1500 }, "exploration",
             "one case = one pool (3-10 validators, drawn stakes incl. exact-threshold sums, own id) fed a sampled arrival order of validly signed votes of all five kinds from honest-pattern and Byzantine signers over 2-8 slots with 1-3 competing blocks, duplicates, received certificates from signer subsets and block registrations; after every step certificates created are compared with the accepted-vote reference table (only-when, as-soon-as, once, exact signers, ValidatedCert::try_new); non-trivial = a certificate was created from votes and at least one vote was refused; distinct = fingerprint over stakes, certificates created and refusal classes"),
